@@ -9,7 +9,8 @@ import ast
 
 from ..region import Raised, Unmodelled, concrete, pc_holds
 from ..terms import FALSE, NONE, TRUE, T, conj, const, const_value, contains, glob, mk, root_of, show, subterms
-from .common import M_IT, M_IV, M_TC, M_TO, M_TOP, Analysis, arg, calls_to, dominates, kw, pc_literals, stores_attr
+from .common import (M_IT, M_IV, M_TC, M_TO, M_TOP, Analysis, arg, calls_to, dominates, kw, pc_literals, stores_attr,
+                     zero_over_runtime)
 
 TO = M_TO + ":ThresholdOptimizer"
 IT = M_IT + ":InterpolatedThresholder"
@@ -42,6 +43,7 @@ def check(ctx):
     ctx.guard(r044_thresholder, ctx)
     ctx.guard(r045_counts, ctx)
     ctx.guard(sweep_structure, ctx, "R04.5")
+    ctx.guard(r048_wiring, ctx)
     ctx.guard(_shared_c04, ctx)
 
 def _analysis(ctx):
@@ -262,7 +264,9 @@ def r044_thresholder(ctx):
            "p0*op0(s) + p1*op1(s)" if ok else f"group probabilities are {A.show(val_, 260)}", construct="thresholder probability")
     init = root_of(e.data["obj"])
     ok = A.eq(init, A.spec("0.0 * s", b)) or A.eq(init, A.spec("np.zeros(len(s))", {**b, **NP, "len": glob("builtins.len")}))
-    ctx.ob("R04.4", fq, e.node, ok, "probabilities start at 0 for every row", construct="thresholder initial probabilities")
+    ok = ok and not zero_over_runtime(init)
+    ctx.ob("R04.4", fq, e.node, ok, "probabilities start at 0 for every row" if ok else "the initial probabilities are not 0 for "
+           f"every row ({show(init, maxdepth=3)[:60]}; 0 / score is NaN for a zero score)", construct="thresholder initial probabilities")
 
 
 def r045_counts(ctx):
@@ -450,6 +454,43 @@ def sweep_structure(ctx, rule):
         okb = okb and v.num.terms.get((), 0) == 1 and len(v.num.terms) == 2  # count[label] + 1
     ctx.ob(rule, fq, incs[0].node if incs else None, okb, "each row of the tie group increments the count of its own label by "
            "one and advances the position by one", construct="sweep tie body")
+    # start of the sweep: position 0, counts [0, 0], a -inf sentinel after the last score, +inf threshold for the first point
+    def _init(v):
+        while v.op == "loopvar":
+            v = v.args[2]
+        return v
+    if incs and adv:
+        pos0 = _init(adv[0].data["value"].args[1] if adv[0].data["value"].op == "binop" and adv[0].data["value"].args[1].op == "loopvar"
+                     else [x for x in subterms(adv[0].data["value"]) if x.op == "loopvar"][0])
+        cnt0 = _init(root_of(incs[0].data["obj"]))
+        oki = pos0 is const(0) and cnt0.op == "list" and len(cnt0.args[0]) == 2 and all(x is const(0) for x in cnt0.args[0])
+        ctx.ob(rule, fq, o.node, oki, "the sweep starts at position 0 with both label counts at 0" if oki else
+               f"the sweep starts at position {show(pos0, maxdepth=2)[:20]} with counts {show(cnt0, maxdepth=2)[:20]}",
+               construct="sweep initial state")
+    sent = [e for e in r.events if e.kind == "call" and e.func == fq and e.data["fterm"].op == "attr" and e.data["fterm"].args[1] == "append"
+            and e.data["fterm"].args[0] is scores0 and not e.loops and e.seq < o.seq]
+    oks = len(sent) == 1 and A.eq(arg(sent[0], 0), A.spec("-np.inf", {"np": glob("numpy")}))
+    ctx.ob(rule, fq, sent[0].node if sent else o.node, oks, "a -inf sentinel follows the last score, so the last threshold admits "
+           "every row" if oks else "the sentinel after the last score is not -inf: the all-positive end point of the curve is lost",
+           construct="sweep sentinel")
+    tops = [e for e in r.events if e.kind == "call" and e.data.get("constructs") == M_TOP + ":ThresholdOperation" and e.func == fq]
+    okth = bool(tops)
+    for e in tops:
+        th = arg(e, 1, "threshold")
+        c = th
+        okth = okth and c is not None and c.op == "ite"
+        if not okth:
+            break
+        cond, a_, b_ = c.args
+        empty = cond.op == "cmp" and cond.args[0] == "==" and cond.args[2].op == "list" and not cond.args[2].args[0] \
+            and cond.args[1].op == "loopvar" and _init(cond.args[1]).op == "list" and not _init(cond.args[1]).args[0]
+        inf = A.spec("np.inf", {"np": glob("numpy")})
+        mids = [x for x in subterms(b_) if x.op == "sub" and x.args[0] is scores0]
+        okth = okth and empty and a_ is inf and len({m.uid for m in mids}) == 2 and \
+            A.eq(b_, A.spec("(a + b) / 2", {"a": mids[0], "b": mids[1]})) and \
+            {m.args[1].op for m in mids} == {"loopvar", "loopout"}
+    ctx.ob(rule, fq, tops[0].node if tops else None, okth, "the first point uses threshold +inf (nobody selected); every later "
+           "threshold is the midpoint between the tie group's score and the next score", construct="sweep thresholds")
     # sorted descending by score
     A2 = Analysis(ctx)
     rs = A2.run(M_TC + ":_get_scores_labels_and_counts")
@@ -471,3 +512,66 @@ def _shared_c04(ctx):
     lifecycle_of(ctx, [TO, IT], {"R19.3": "R04.6", "R19.4": "R04.6"})
     ctx.rule("R04.7", "no caller-labelled pandas value reaches a label-aligning operation on the paths of this property (shared with C12 R12.1)")
     label_sinks(ctx, "R04.7", [(TO + ".fit", TO), (IT + "._pmf_predict", IT)])
+
+
+def r048_wiring(ctx):
+    ctx.rule("R04.8", "ThresholdOptimizer.fit runs the equalized-odds routine exactly when constraints == 'equalized_odds' and hands "
+                      "(validated sensitive features, integer labels, soft predictions of estimator_ on X) to it in that order; both "
+                      "routines wrap (estimator_, interpolation_dict, prefit=True, predict_method) in the InterpolatedThresholder; "
+                      "predict / _pmf_predict pass X, sensitive_features and random_state through to it")
+    eo, simple = TO + "._threshold_optimization_for_equalized_odds", TO + "._threshold_optimization_for_simple_constraints"
+    A = Analysis(ctx, no_inline=[eo, simple, M_IV + ":_validate_and_reformat_input", "fairlearn.utils._common:_get_soft_predictions"], max_depth=2)
+    r = A.run(TO + ".fit", cls_ctx=TO)
+    fq = r.func
+    st = stores_attr(r, "interpolated_thresholder_")
+    ctx.require(len(st) == 1, "anchor vanished: store of interpolated_thresholder_")
+    v = st[0].data["value"]
+    is_eo = A.C.canon(A.entry(r, "self.constraints == 'equalized_odds'"))
+    calls = {e.data.get("callee"): e for e in r.events if e.kind == "call" and e.data.get("callee") in (eo, simple)}
+    ok = v.op == "ite" and len(calls) == 2
+    if ok:
+        c = A.C.canon(v.args[0])
+        a_, b_ = v.args[1], v.args[2]
+        ok = (c is is_eo and a_ is calls[eo].data["result"] and b_ is calls[simple].data["result"]) or \
+             (c is A.C._not(is_eo) and b_ is calls[eo].data["result"] and a_ is calls[simple].data["result"])
+    ctx.ob("R04.8", fq, st[0].node, ok, "the equalized-odds routine runs exactly for constraints == 'equalized_odds'" if ok else
+           "the optimisation routine is not selected by constraints == 'equalized_odds'", construct="routine dispatch")
+    val = calls_to(r, M_IV + ":_validate_and_reformat_input")
+    sp = calls_to(r, "fairlearn.utils._common:_get_soft_predictions")
+    est = stores_attr(r, "estimator_")
+    okargs = len(val) == 1 and len(sp) == 1 and bool(est)
+    if okargs:
+        sf = mk("sub", val[0].data["result"], const(2))
+        y = r.params["y"]
+        for e in calls.values():
+            a0, a1, a2 = arg(e, 0, "sensitive_features"), arg(e, 1, "labels"), arg(e, 2, "scores")
+            okargs = okargs and a0 is sf and a2 is sp[0].data["result"] and a1 is not None and contains(a1, lambda s_: s_ is y) \
+                and not contains(a1, lambda s_: s_ is r.params["X"]) and not contains(a1, lambda s_: s_ is val[0].data["result"])
+        okargs = okargs and A.eq(arg(sp[0], 0), A.at(sp[0], "self.estimator_")) and arg(sp[0], 1) is r.params["X"] \
+            and A.eq(arg(sp[0], 2), A.at(sp[0], "self._predict_method"))
+        okargs = okargs and arg(val[0], 0) is r.params["X"] and arg(val[0], 1, "y") is y and kw(val[0], "sensitive_features") is r.params["sensitive_features"]
+    ctx.ob("R04.8", fq, st[0].node, bool(okargs), "the routine receives (validated sensitive features, labels, scores of estimator_ on X)",
+           construct="routine arguments")
+    for rq in (eo, simple):
+        A1 = Analysis(ctx, max_depth=1, inline=lambda f_, d_: False)
+        rr = A1.run(rq, cls_ctx=TO)
+        cons = [e for e in rr.events if e.kind == "call" and e.data.get("constructs") == IT]
+        okc = len(cons) == 1
+        if okc:
+            e = cons[0]
+            idict = arg(e, 1, "interpolation_dict")
+            okc = A1.eq(arg(e, 0, "estimator"), A1.at(e, "self.estimator_")) and idict is not None and \
+                root_of(idict).op in ("dict", "loopout", "upd") and kw(e, "prefit") is TRUE and \
+                A1.eq(kw(e, "predict_method"), A1.at(e, "self._predict_method")) and bool(rr.returns) and all(
+                    v_ is e.data["result"] or (v_.op == "call" and v_.args[0].op in ("boundmethod", "attr") and v_.args[0].args[0] is e.data["result"]
+                                               and str(v_.args[0].args[1]).endswith("fit")) for _, v_ in rr.returns)
+        ctx.ob("R04.8", rq, cons[0].node if cons else None, okc, "the routine returns InterpolatedThresholder(estimator_, "
+               "interpolation_dict, prefit=True, predict_method=...)", construct="thresholder construction")
+    A1 = Analysis(ctx, max_depth=1, inline=lambda f_, d_: False)
+    for m, kws in (("predict", ("sensitive_features", "random_state")), ("_pmf_predict", ("sensitive_features",))):
+        rp = A1.run(TO + "." + m, cls_ctx=TO)
+        want = A1.entry(rp, f"self.interpolated_thresholder_.{m}(X, " + ", ".join(f"{k}={k}" for k in kws) + ")")
+        okp = rp.ret is want
+        ctx.ob("R04.8", rp.func, None, okp, f"ThresholdOptimizer.{m} delegates with X, " + ", ".join(kws) + " passed through" if okp else
+               f"ThresholdOptimizer.{m} returns {show(rp.ret, maxdepth=4)[:120] if rp.ret is not None else '?'}: an argument is not passed on",
+               construct=f"{m} delegation")
